@@ -67,26 +67,6 @@ theorem eds_after_cds_answered (s : State) (w : WR) (cdsNames : List String) (ol
 
 /-! ## Delta, wildcard types: retained state is reconciled by the first answer -/
 
-theorem mem_insertAll (res : List String) (c : Bool) (xs : List String) (x : String) :
-    x ∈ (insertAll res c xs).1 ↔ x ∈ res ∨ x ∈ xs := by
-  induction xs generalizing res c with
-  | nil => simp [insertAll]
-  | cons y ys ih =>
-    simp only [insertAll]
-    by_cases h : res.contains y = true
-    · simp only [h, if_true, ih, List.mem_cons]
-      constructor
-      · rintro (h1 | h1)
-        · exact Or.inl h1
-        · exact Or.inr (Or.inr h1)
-      · rintro (h1 | h1 | h1)
-        · exact Or.inl h1
-        · subst h1; exact Or.inl (by simpa using h)
-        · exact Or.inr h1
-    · have hf : res.contains y = false := by simpa using h
-      simp only [hf, Bool.false_eq_true, if_false, ih]
-      simp [or_assoc]
-
 /-- The name set recorded / handed to the generator for a first delta request that subscribes
     to `*` and reports `init` as retained: everything reported except `*`. -/
 theorem mem_deltaWatched_first (sub init : List String) (nonce : String) (x : String)
@@ -128,6 +108,49 @@ theorem reconnect_resync_delta_wild (t : Ty) (hset : shouldSetWatched t = true) 
     exact ceased_resources_removed t hnr wn retained W resp _ hcover hpd n hn hgone
   · intro n hn
     exact needed_not_removed t hnr wn W resp _ hpd n hn
+
+/-- The same at the level of the whole request handler (`processDeltaRequest`, tied to the real code
+    by the `book` / `reconn` streams): a fresh stream, a wildcard non-managed type other than CDS
+    (whose request additionally forces an EDS push), a generator producing the full current set. -/
+theorem reconnect_processDelta_wild (gen : Gen) (v : Srv) (t : Ty)
+    (hset : shouldSetWatched t = true) (hnr : neverRemove t = false) (hcds : t ≠ .cds)
+    (hfresh : v.st t = none) (hok : v.fail = false)
+    (retained : Held) (init : List String) (oldNonce : String) (W : List C03.Res)
+    (hgen : ∀ wn, gen t wn = fullOut W)
+    (hreport : ∀ n ∈ names retained, n ∈ init) (hstar : "*" ∉ names retained) :
+    ∃ v' wire, processDelta gen v { ty := t, sub := ["*"], unsub := [], init := init, nonce := oldNonce, err := none }
+        = some (v', [wire]) ∧
+      InSync (applyDelta retained { resources := wire.resources, removed := wire.removed }) W ∧
+      ∃ w', v'.st t = some w' ∧ w'.names = names W := by
+  let r : DReq := { ty := t, sub := ["*"], unsub := [], init := init, nonce := oldNonce, err := none }
+  have hman : t.managed = false := by
+    cases t <;> simp_all [shouldSetWatched, Ty.managed, Ty.wildcard]
+  let wn := (deltaWatched [] r).1
+  have hwn : wn = (deltaWatched [] { ty := .cds, sub := ["*"], unsub := [], init := init, nonce := "", err := none }).1 := by
+    simp [wn, r, deltaWatched]
+  have hcover : ∀ n ∈ names retained, n ∈ wn := by
+    intro n hn
+    have hne : n ≠ "*" := fun e => hstar (e ▸ hn)
+    rw [hwn]
+    exact (mem_deltaWatched_first ["*"] init "" n hne).mpr (Or.inr (hreport n hn))
+  obtain ⟨resp, hpd, hsync, _⟩ := wild_push_sync t wn retained (fullOut W) hset hnr rfl rfl rfl hcover
+  have hsr : shouldRespondDelta v.st r = .out true (v.st.set t (some { names := wn, wildcard := (deltaWatched [] r).2.1 })) := by
+    simp [shouldRespondDelta, shouldRespondDeltaG, r, hfresh, hman, wn]
+  have hnarrow : narrowedDelta t wn wn ([] : List String) = wn := by
+    simp [narrowedDelta, hman]
+  let s1 := v.st.set t (some { names := wn, wildcard := (deltaWatched [] r).2.1 })
+  let v' : Srv := { v with st := sendDelta s1 t (freshNonce v) (some (names W)) true, ctr := v.ctr + 1 }
+  refine ⟨v', { ty := t, resources := resp.resources, removed := resp.removed, nonce := freshNonce v }, ?_, hsync, ?_⟩
+  · have hpd' : pushDelta t wn (fullOut W) = some (resp, some (names W)) := hpd
+    simp only [processDelta]
+    rw [show shouldRespondDelta v.st { ty := t, sub := ["*"], unsub := [], init := init, nonce := oldNonce, err := none }
+          = .out true s1 from hsr]
+    have hsub : (deltaWatched [] { ty := t, sub := ["*"], unsub := [], init := init, nonce := oldNonce, err := none : DReq }).1 = wn := rfl
+    simp only [hsub, List.filter_nil, pushDeltaOne, s1, State.set_same, hnarrow, hgen, hpd', hok,
+      Bool.false_eq_true, if_false, hcds, ne_eq, not_false_eq_true, Bool.false_or, Option.toList, v']
+    simp [freshNonce]
+  · exact ⟨{ names := names W, wildcard := (deltaWatched [] r).2.1, nonceSent := freshNonce v },
+      by simp [v', sendDelta, s1], rfl⟩
 
 /-! ## Workload (WDS) reconnect with version skip -/
 
